@@ -669,6 +669,12 @@ class CextProxy:
     def __init__(self, k, real):
         self.k, self.real = k, real
 
+    def _who(self, pid):
+        """pid 0 in getpriority/setpriority/ioprio_*/sched_*affinity/prlimit means the CALLING process"""
+        if isinstance(pid, int) and not isinstance(pid, bool) and pid == 0:
+            return self.k.os_proxy.getpid()
+        return pid
+
     def _gate(self, pid, what):
         self.k.access("syscall", f"/proc/{pid}/@{what}")
         if pid not in self.k.procs:
@@ -678,14 +684,17 @@ class CextProxy:
         return None
 
     def getpriority(self, pid):
+        pid = self._who(pid)
         self._gate(pid, "getpriority")
         return self.k.settings[pid]["nice"]
 
     def proc_ioprio_get(self, pid):
+        pid = self._who(pid)
         self._gate(pid, "ioprio_get")
         return self.k.settings[pid]["ioprio"]
 
     def proc_cpu_affinity_get(self, pid):
+        pid = self._who(pid)
         self._gate(pid, "sched_getaffinity")
         return list(self.k.settings[pid]["affinity"])
 
@@ -704,16 +713,19 @@ class CextProxy:
         self.k.deliveries.append((what, pid, args))
 
     def setpriority(self, pid, value):
+        pid = self._who(pid)
         self._deliver("setpriority", pid, value)
         self.k.settings[pid]["nice"] = self.k.clamp(value, -20, 19)
 
     def proc_ioprio_set(self, pid, ioclass, value):
+        pid = self._who(pid)
         self._deliver("ioprio_set", pid, ioclass, value)
         if _decide((ioclass < 0) | (ioclass > 3)) if isinstance(ioclass, SymInt) else not 0 <= ioclass <= 3:
             raise oserr(errno.EINVAL)
         self.k.settings[pid]["ioprio"] = (ioclass, value)
 
     def proc_cpu_affinity_set(self, pid, cpus):
+        pid = self._who(pid)
         self._deliver("sched_setaffinity", pid, tuple(cpus))
         allowed = self.k.settings[pid].get("allowed", [0, 1, 2, 3])
         for c in cpus:
@@ -741,6 +753,8 @@ class ResourceProxy:
         self.k = k
 
     def prlimit(self, pid, res, limits=None):
+        if isinstance(pid, int) and not isinstance(pid, bool) and pid == 0:
+            pid = self.k.os_proxy.getpid()      # prlimit(0, ...) = the calling process
         self.k.access("syscall", f"/proc/{pid}/@prlimit")
         if pid not in self.k.procs:
             raise oserr(errno.ESRCH)
